@@ -190,6 +190,22 @@ func (w *w1) opHealthMeta(op simrt.Op) {
 			return
 		}
 	}
+	if cfg.MaxSamples <= 16 {
+		// recency: as many good operations as the monitor keeps, then as many failed ones, all well inside
+		// the window - the rating must be about the recent ones
+		c := broker.NewS3HealthMonitor(cfg)
+		for i := 0; i < cfg.MaxSamples; i++ {
+			c.RecordOperation("op", time.Millisecond, nil)
+		}
+		for i := 0; i < cfg.MaxSamples+2; i++ {
+			c.RecordOperation("op", time.Millisecond, injected)
+		}
+		w.sim.Probe("c25.recency-judged")
+		if c.State() == broker.S3StateHealthy {
+			w.sim.Fail("C25", "rating-ignores-recent-operations", "%d successful operations followed by %d failed ones within one window (%v) are rated %s (cfg %+v)", cfg.MaxSamples, cfg.MaxSamples+2, cfg.Window, c.State(), cfg)
+			return
+		}
+	}
 	simrt.Sleep(cfg.Window + time.Millisecond)
 	if a.State() != broker.S3StateHealthy || b.State() != broker.S3StateHealthy {
 		w.sim.Fail("C25", "stale-samples-influence-rating", "one full window (%v) after the last sample the ratings are %s / %s", cfg.Window, a.State(), b.State())
